@@ -161,16 +161,14 @@ Definition known_D02 (c : bcase) : bool :=
   | Ok (l, _) => negb (increasing (flat_map (fun i => match it_imp i with Some k => if it_del i then [] else [k] | None => [] end) l))
   | Panic _ => false
   end.
-(* D06: an import added / converted after parsing and then deleted stays in the index space *)
-Definition known_D06 (c : bcase) : bool :=
-  let s := m_f (b_m (final_model c)) in
-  existsb (fun i => is_import i && it_del i) (skipn (N.to_nat (s_num s - s_added s)) (s_items s)).
+(* D06 (an import added / converted after parsing and then deleted stayed in the index space) is repaired:
+   recalculate_ids drops every deleted item; the class is gone. *)
 
 Definition K (n : N) (p : bcase -> bool) : N * (bcase -> bool) := (n, p).
 Definition cls (c : bcase) (l : list (N * (bcase -> bool))) : list N :=
   flat_map (fun kp : N * (bcase -> bool) => if snd kp c then [fst kp] else []) l.
 Definition verdict12 (c : bcase) : Util.verdict :=
-  (agree c, in_domain c, holds c, cls c [K 8 known_D08; K 2 known_D02; K 6 known_D06]).
+  (agree c, in_domain c, holds c, cls c [K 8 known_D08; K 2 known_D02]).
 Definition report_C12 := run_report verdict12.
 
 (* cases whose observation is the model's own output (refutation witnesses, non-vacuity examples) *)
